@@ -131,6 +131,7 @@ func verifC19_read() {
 }
 
 var vIntDocs = []string{`12`, `-7`}
+
 // documents that are invalid for a []byte target: strings that are not base64, and other kinds of value
 var vBadBytesDocs = []string{`"x"`, `"@@@@"`, `1.5`, `{"a":1}`}
 
